@@ -25,11 +25,17 @@ fn main() {
     }
 }
 
+/// every result line is prefixed with 0x01 so that anything the library itself prints on
+/// stdout (request logs, diagnostics) can be told apart from protocol output
+pub fn emit(res: &str) {
+    let stdout = io::stdout();
+    let mut out = stdout.lock();
+    writeln!(out, "\x01{}", res).unwrap();
+    out.flush().unwrap();
+}
+
 fn codec_loop() {
     let stdin = io::stdin();
-    let stdout = io::stdout();
-    let mut out = io::BufWriter::new(stdout.lock());
-    // run on a named thread with a large stack, like the server's workers are named
     let mut line = String::new();
     let mut inp = stdin.lock();
     loop {
@@ -42,7 +48,6 @@ fn codec_loop() {
             let fields: Vec<String> = parts[1..].iter().map(|s| s.to_string()).collect();
             proto::guarded(move || ops::dispatch(&op, &fields))
         };
-        writeln!(out, "{}", res).unwrap();
+        emit(&res);
     }
-    out.flush().unwrap();
 }
